@@ -237,7 +237,7 @@ func c14Tables(c *h.Ctx, id string, a, b enc.Name) {
 	det := func() any { return map[string]any{"a": nameDesc(a), "b": nameDesc(b)} }
 	wa, wb := []byte("A:"+id), []byte("B:"+id)
 	var ga1, gb1, ga2, gb2 []byte
-	var trieSame, trieFound bool
+	var trieSame, trieFound, delChecked, delAGone, delBKept bool
 	var va, vb int
 	if pi := h.Guard(func() {
 		st := object.NewMemoryStore()
@@ -261,6 +261,15 @@ func c14Tables(c *h.Ctx, id string, a, b enc.Name) {
 		if trieFound {
 			va, vb = xa.Value(), xb.Value()
 		}
+		if !same && trieFound && !trieSame {
+			// removal uses the same key as insertion: deleting a removes a and only a
+			xa.SetValue(0)
+			xa.DeleteIf(func(v int) bool { return v == 0 })
+			ya, yb := tr.ExactMatch(a), tr.ExactMatch(b)
+			delChecked = true
+			delAGone = ya == nil || refIsPrefix(a, b) // a node that still has children stays
+			delBKept = yb != nil && yb.Value() == 2
+		}
 	}); pi != nil {
 		c.Violation("C14:panic:tables:"+pi.Frame+":"+pi.Class, id, "name-keyed table panicked: "+pi.Value, det())
 		return
@@ -279,6 +288,9 @@ func c14Tables(c *h.Ctx, id string, a, b enc.Name) {
 		c.Violation("C14:store-conflates-names", id, fmt.Sprintf("memory store: after Put(a,A) Put(b,B) with a != b, Get(a)=%q Get(b)=%q", ga1, gb1), det())
 	} else if ga2 != nil || !bytes.Equal(gb2, wb) {
 		c.Violation("C14:store-conflates-names", id, fmt.Sprintf("memory store: after Remove(a) with a != b, Get(a)=%q Get(b)=%q", ga2, gb2), det())
+	}
+	if delChecked && (!delAGone || !delBKept) {
+		c.Violation("C14:trie-delete-uses-other-key", id, fmt.Sprintf("name trie: after deleting the node of a (a != b), a gone=%v, b kept=%v (both expected true)", delAGone, delBKept), det())
 	}
 	if trieSame || !trieFound || va != 1 || vb != 2 {
 		c.Violation("C14:trie-conflates-names", id, fmt.Sprintf("name trie: distinct names share a node or are not found (same node=%v found=%v values %d,%d)", trieSame, trieFound, va, vb), det())
